@@ -79,6 +79,7 @@ type vStore struct {
 	ops         int            // operations seen (reads, writes, removes)
 	failAt      int            // 1-based operation index that fails (0 = none)
 	failed      bool           // the fault was injected
+	failNextWrite bool         // the next write fails (once)
 	muts        []vMutation    // mutation log
 	gate        func(op, key string) // optional scheduling gate
 }
@@ -119,6 +120,13 @@ func (s *vStore) Write(ctx context.Context, key string, body []byte, o *storage.
 	if err := s.step("w", key); err != nil {
 		return err
 	}
+	s.mu.Lock()
+	if s.failNextWrite {
+		s.failNextWrite, s.failed = false, true
+		s.mu.Unlock()
+		return errInjected
+	}
+	s.mu.Unlock()
 	c := make([]byte, len(body))
 	copy(c, body)
 	s.mu.Lock()
